@@ -208,7 +208,7 @@ class OpsMixin:
             return self.contains(b, a)
         if op == "not in":
             r = self.contains(b, a)
-            return Maybe("not " + r.desc) if isinstance(r, Maybe) else (not r)
+            return r.negated() if isinstance(r, Maybe) else (not r)
         if op == "==":
             return self.equals(a, b)
         if op == "!=":
@@ -217,7 +217,7 @@ class OpsMixin:
                 if fi is not None:
                     return self.call_function(fi, [a, b], {})
             r = self.equals(a, b)
-            return Maybe("not " + r.desc) if isinstance(r, Maybe) else (not self.truth(r))
+            return r.negated() if isinstance(r, Maybe) else (not self.truth(r))
         # ordering
         if isinstance(a, ComplexVal) or isinstance(b, ComplexVal):
             self.raise_builtin("TypeError", f"'{op}' not supported for complex")
@@ -264,7 +264,7 @@ class OpsMixin:
         if op == "==":
             if d.nonzero():
                 return False
-            return Maybe(desc)
+            return Maybe(desc, generic=False)
         if op == "<":
             return True if d.all_lt(0) else (False if d.all_ge(0) else Maybe(desc))
         if op == "<=":
@@ -1103,13 +1103,14 @@ class Interpreter(OpsMixin, ExecMixin, Interp):
     pass
 
 
-def explore(model, thunk, max_paths: int = 64, max_steps: int = 400000):
+def explore(model, thunk, max_paths: int = 64, max_steps: int = 400000, generic_only: bool = False):
     """Run `thunk(interp)` under every decision script.  Yields one outcome per path:
     dict(kind='return'|'raise'|'unsupported'|'limit', value/exc/msg, imprecise, forks, interp)."""
     script = []
     n = 0
     while True:
         it = Interpreter(model, max_steps=max_steps)
+        it.generic_only = generic_only
         it.reset_run(script)
         try:
             v = thunk(it)
@@ -1127,6 +1128,7 @@ def explore(model, thunk, max_paths: int = 64, max_steps: int = 400000):
         out["interp"] = it
         out["flags"] = set(it.flags)
         out["warnings"] = list(it.warnings)
+        out["generic_skipped"] = it.generic_skipped
         yield out
         n += 1
         # next script: flip the last True decision that was newly taken
